@@ -1,14 +1,42 @@
 package main
 
 import (
+	"os"
 	"fmt"
 	"strings"
 
 	"golang.org/x/tools/go/ssa"
 )
 
-// B1-B3: the per-symbol maps of the BCD coder, one symbol / one byte at a time.
+// RuleBCD: the B rules are shared by several properties; within one process (the self-test `check ALL`) they are
+// computed once per loaded program and replayed into each report.
+var bcdMemo = map[*Program]*Report{}
+
 func RuleBCD(r *Report, p *Program) {
+	tmp, ok := bcdMemo[p]
+	if !ok {
+		tmp = NewReport(r.Property, r.Tier)
+		func() {
+			defer func() {
+				if e := recover(); e != nil {
+					tmp.Fatal("ENGINE", "panic", fmt.Sprintf("B rules: %v", e))
+				}
+			}()
+			ruleBCD(tmp, p)
+		}()
+		bcdMemo[p] = tmp
+	}
+	for id, doc := range tmp.ruleDoc {
+		r.Rule(id, doc, tmp.minCount[id])
+	}
+	for _, o := range tmp.Obs {
+		r.add(o)
+	}
+	r.fatal = append(r.fatal, tmp.fatal...)
+}
+
+// B1-B3: the per-symbol maps of the BCD coder, one symbol / one byte at a time.
+func ruleBCD(r *Report, p *Program) {
 	r.Rule("B1", "Encode maps exactly the runes '0'..'9' to the nibbles 0..9 and every other rune to the error result", 1)
 	r.Rule("B2", "Decode maps each nibble 0..9 to its digit, high nibble first, and any other nibble to the error result", 1)
 	enc := p.Func("encoding/bcd", "Encode")
@@ -113,6 +141,12 @@ func RuleBCD(r *Report, p *Program) {
 	covered := map[int64]bool{}
 	paths := w2.Walk(dec, []*Term{{Op: "param", Name: "b", Typ: dec.Params[0].Type()}}, nil)
 	for _, pa := range paths {
+		if os.Getenv("UHLINT_DEBUG") == "B2" {
+			fmt.Fprintf(os.Stderr, "B2 path %s %s cond=%s\n", pa.Outcome, pa.Detail, cut(pa.State.Describe(), 300))
+			for _, e := range pa.Events {
+				fmt.Fprintf(os.Stderr, "   ev %s\n", cut(e.String(), 200))
+			}
+		}
 		if pa.Outcome != "return" {
 			bad = "path ends in " + pa.Outcome + ": " + pa.Detail
 			continue
@@ -133,6 +167,14 @@ func RuleBCD(r *Report, p *Program) {
 		for _, e := range pa.Events {
 			if e.Kind == "call" && (strings.HasSuffix(e.Name, ".WriteRune") || strings.HasSuffix(e.Name, ".WriteByte")) && len(e.Args) == 2 {
 				writes = append(writes, e.Args[1])
+			}
+			if e.Kind == "call" && strings.HasSuffix(e.Name, ".Write") && len(e.Args) == 2 {
+				// several characters appended at once: each element of the slice is one character
+				if els := w2.ElemsOf(e.Args[1]); els != nil {
+					writes = append(writes, els...)
+				} else {
+					writes = append(writes, e.Args[1])
+				}
 			}
 		}
 		if len(writes) == 0 && len(pa.Results) > 0 && pa.Results[0].Op == "strv" {
